@@ -51,12 +51,19 @@ def main():
             extra_checks[k] = v.split(",")
             props[props.index(a)] = k
     summary = []
-    for prop in props:
+    if props and props[0] == "--index":
+        return write_index()
+    if props and props[0] == "--recheck":
+        return recheck(props[1:])
+    for arg in props:
+        prop, off = arg[:3], (2 if arg.endswith("b") else 4 if arg.endswith("c") else 0)
+        if arg in extra_checks:
+            extra_checks[prop] = extra_checks[arg]
         for k in (1, 2):
-            src = "/tmp/seed/out/%s/change%d" % (prop, k)
+            src = "/tmp/seed/out/%s/change%d" % (arg, k)
             if not os.path.exists(os.path.join(src, "patch.diff")):
                 continue
-            name = "%s-%d" % (prop, k)
+            name = "%s-%d" % (prop, k + off)
             wt = "/tmp/seedchk/" + name
             sh("git -C /repo worktree remove --force %s" % wt)
             shutil.rmtree(wt, ignore_errors=True)
@@ -141,6 +148,94 @@ def main():
                 for c, v in (rec.get("checks") or {}).items():
                     print("    ", c, v["exit"], v["wall_s"], v["first_violation"] or v["undecided"], flush=True)
     json.dump(summary, open("/tmp/seedchk/summary-%d.json" % int(time.time()), "w"), indent=1)
+
+
+def run_checks(wt, checks):
+    out = {}
+    for chk in checks:
+        t0 = time.time()
+        rc, o = sh("./check %s --tier quick" % chk, cwd=VERIF, timeout=3000, env=dict(ENV, VERIF_REPO=wt))
+        lines = [l for l in o.splitlines() if l.startswith(("VIOLATION", "OK ", "UNDECIDED", "KNOWN-FINDING"))]
+        first_v = None
+        for l in lines:
+            m = re.match(r"VIOLATION property=\S+ replay=(\S+)", l)
+            if m and os.path.exists(m.group(1)):
+                try:
+                    first_v = (json.load(open(m.group(1))).get("detail") or [""])[0][:300]
+                except Exception:
+                    pass
+                break
+        out[chk] = dict(exit=rc, wall_s=round(time.time() - t0, 1), violations=sum(1 for l in lines if l.startswith("VIOLATION")),
+                        first_violation=first_v, undecided=[l[:300] for l in lines if l.startswith("UNDECIDED")])
+        shutil.rmtree(os.path.join(VERIF, "replays", chk), ignore_errors=True)
+    return out
+
+
+def recheck(names):
+    """Re-run the checks on kept seeded changes against the CURRENT /repo HEAD (patches are re-applied with 3-way merge;
+    a hand-rebased patch-rebased-*.diff is preferred when present) and update meta.json."""
+    names = names or sorted(os.listdir(os.path.join(VERIF, "seeded")))
+    for name in names:
+        d = os.path.join(VERIF, "seeded", name)
+        if not os.path.exists(os.path.join(d, "meta.json")):
+            continue
+        meta = json.load(open(os.path.join(d, "meta.json")))
+        wt = "/tmp/seedchk/rc-" + name
+        sh("git -C /repo worktree remove --force %s" % wt)
+        shutil.rmtree(wt, ignore_errors=True)
+        os.makedirs("/tmp/seedchk", exist_ok=True)
+        sh("git -C /repo worktree add -q --detach %s HEAD" % wt)
+        try:
+            patches = sorted(f for f in os.listdir(d) if f.startswith("patch-rebased")) + ["patch.diff"]
+            applied = None
+            for pf in patches:
+                rc, out = sh("git apply %s" % os.path.join(d, pf), cwd=wt)
+                if rc:
+                    rc, out = sh("git apply --3way %s" % os.path.join(d, pf), cwd=wt)
+                if rc == 0:
+                    applied = pf
+                    break
+                sh("git checkout -- . && git clean -fdq", cwd=wt)
+            if not applied:
+                print(name, "PATCH DOES NOT APPLY TO HEAD (needs a hand rebase)", flush=True)
+                meta["recheck"] = "patch does not apply to the current HEAD"
+                json.dump(meta, open(os.path.join(d, "meta.json"), "w"), indent=1)
+                continue
+            rc_b, _ = sh("go build ./... && go test -vet=off -count=1 ./...", cwd=wt, timeout=900)
+            target, tags = meta.get("demo_path"), meta.get("demo_tags", "")
+            shutil.copy(os.path.join(d, "demo_test.go"), os.path.join(wt, target))
+            rc_c, _ = go_test_demo(wt, target, tags)
+            os.remove(os.path.join(wt, target))
+            sh("rm -rf %s/*/data %s/data %s/cmd/*/data" % (wt, wt, wt))
+            checks = sorted(set([meta["property"]] + list((meta.get("checks") or {}).keys())))
+            res = run_checks(wt, checks)
+            meta["checks"] = res
+            meta["detected_by"] = [c for c, v in res.items() if v["exit"] == 1]
+            meta["rechecked_at_repo"] = sh("git -C /repo rev-parse --short HEAD")[1].strip()
+            meta["recheck"] = dict(patch=applied, changed_tree_existing_suite="PASS" if rc_b == 0 else "FAIL", changed_tree_demo="FAIL" if rc_c else "PASS")
+            json.dump(meta, open(os.path.join(d, "meta.json"), "w"), indent=1)
+            print(name, meta["recheck"], "detected_by", meta["detected_by"], flush=True)
+        finally:
+            sh("git -C /repo worktree remove --force %s" % wt)
+            shutil.rmtree(wt, ignore_errors=True)
+    write_index()
+
+
+def write_index():
+    rows = []
+    for name in sorted(os.listdir(os.path.join(VERIF, "seeded"))):
+        f = os.path.join(VERIF, "seeded", name, "meta.json")
+        if not os.path.exists(f):
+            continue
+        m = json.load(open(f))
+        det = ", ".join(m.get("detected_by") or []) or "**none**"
+        others = ", ".join("%s:%s" % (c, {0: "quiet", 1: "VIOLATION", 2: "undecided"}.get(v["exit"], v["exit"])) for c, v in (m.get("checks") or {}).items())
+        rows.append("| %s | %s | %s | %s | %s |" % (name, m["property"], (m.get("summary") or "").replace("|", "/")[:160], (m.get("needs") or "").replace("|", "/").replace("\n", " ")[:200], det + " (" + others + ")"))
+    txt = "# Seeded changes and the checks that catch them\n\nEach change was produced by a sub-agent that saw only the property text and a scratch worktree; " \
+          "confirmed here (demo passes on the unchanged tree, pinned suite passes with the change, demo fails with the change); quick tier, VERIF_SEED=1.\n\n" \
+          "| id | property | change | needs | caught by (all checks run) |\n|---|---|---|---|---|\n" + "\n".join(rows) + "\n"
+    open(os.path.join(VERIF, "seeded", "INDEX.md"), "w").write(txt)
+    print("seeded/INDEX.md: %d changes" % len(rows))
 
 
 if __name__ == "__main__":
